@@ -109,6 +109,33 @@ static void caseC04(uint64_t idx, vh::Rng& g)
 			}
 		}
 	}
+	// ---- downward again on the SAME object after it was modified in place (a quarter of the cases)
+	if (g.chance(1, 4))
+	{
+		RTA d = rm::densify(a); int n = static_cast<int>(d.states().size());
+		if (n >= 2 && !d.rules.empty())
+		{
+			CaseAlphabet ca(al); Aut A = mkExpl(d, ca);
+			SimParam sp; sp.SetRelation(SimParam::e_sim_relation::TA_DOWNWARD); sp.SetNumStates(n);
+			try
+			{
+				R->phase("ComputeSimulation down (before in-place modification)"); { auto rel0 = A.ComputeSimulation(sp); (void)rel0; }
+				for (int round = 0; round < 2; ++round)
+				{
+					std::vector<St> st; for (int i = 0; i < n; ++i) st.push_back(i);
+					RTA e = gen::randTA(g, al, st, g.range(1, 2), 1);
+					for (auto& r : e.rules) { std::vector<size_t> ch(r.ch.begin(), r.ch.end()); A.AddTransition(ch, ca.num[r.sym], r.par); d.rules.insert(r); }
+					for (St f : e.fin) { A.SetStateFinal(f); d.fin.insert(f); }
+					R->desc(rm::toTimbuk(d, al) + "(simulated, then modified in place, round " + vh::str(round) + ")"); R->count("down-after-in-place-mutation"); R->extraEvaluation();
+					R->phase("ComputeSimulation down (same object after in-place modification)");
+					auto rel = A.ComputeSimulation(sp); rm::Rel ref = rm::naiveDown(d, n); bool ok = true;
+					for (int q = 0; q < n && ok; ++q) for (int r = 0; r < n; ++r) if (rel.get(q, r) != ref[q][r]) { R->violation(std::string("C04/down/after-in-place-mutation/") + (ref[q][r] ? "not-greatest" : "too-large"), "pair (" + vh::str(q) + "," + vh::str(r) + ")\n" + rm::toTimbuk(d, al)); ok = false; break; }
+					if (!ok) break;
+				}
+			}
+			catch (std::exception& e) { R->violation("C04/down/after-in-place-mutation/exception", e.what()); }
+		}
+	}
 	// ---- upward: automaton without useless states (trimmed by the reference model)
 	{
 		RTA t = rm::densify(rm::trimRM(a)); int n = static_cast<int>(t.states().size());
